@@ -42,16 +42,7 @@ def fmtOut : Out → String
   | .ok => "ok -"
   | .rejected e => "rej " ++ errName e
 
-structure Spec where
-  names : List String
-  defaults : Option (List X)
-  mins : Option (List X)
-  maxs : Option (List X)
-  cb : Bool
-  ch : Bool
-  an : Bool
-
-def spec? (s : String) : Option Spec :=
+def spec? (s : String) : Option (Spec Float) :=
   match s.splitOn "/" with
   | [nm, d, lo, hi, cb, ch, an] =>
     match optList? d, optList? lo, optList? hi, flag? cb, flag? ch, flag? an with
@@ -120,34 +111,24 @@ def runT (w : World Float) (t : Trans) (ops : List (TOp Float)) : List String :=
     let (w', o) := tstep epsF w t op
     observe w' o :: runT w' t rest
 
-/-- construct one more vector in the world's store -/
-def addVec (w : World Float) (sp : Spec) : Except Err (World Float) :=
-  match mk epsF w.store sp.names sp.defaults sp.mins sp.maxs sp.cb sp.ch sp.an with
-  | .error e => .error e
-  | .ok (s, v) => .ok ⟨s, w.vecs ++ [v]⟩
-
 def handle (toks : List String) : String :=
   match toks with
   | ["eps"] => hexOfFloat epsF
   | "V" :: sp :: ops =>
     match spec? sp, allSome (ops.map op?) with
     | some sp, some ops =>
-      match init epsF sp.names sp.defaults sp.mins sp.maxs sp.cb sp.ch sp.an with
+      match init epsF sp.names sp.defaults sp.mins sp.maxs sp.checkBounds sp.checkHit sp.acceptNan with
       | .error e => "rej " ++ errName e
       | .ok w => " | ".intercalate (observe w .ok :: runV w ops)
     | _, _ => "bad-op"
   | "T" :: kd :: ps :: cs :: bs :: ops =>
     match kind? kd, spec? ps, spec? cs, allSome (ops.map top?) with
     | some kd, some ps, some cs, some ops =>
-      let w0 : World Float := ⟨Store.empty, []⟩
       let built : Except Err (World Float) :=
-        match addVec w0 ps with
-        | .error e => .error e
-        | .ok w1 => match addVec w1 cs with
-          | .error e => .error e
-          | .ok w2 => if bs = "-" then .ok w2 else match spec? bs with
-            | none => .error .index
-            | some bsp => addVec w2 bsp
+        if bs = "-" then tinit epsF ps cs none
+        else match spec? bs with
+          | none => .error .index
+          | some bsp => tinit epsF ps cs (some bsp)
       match built with
       | .error e => "rej " ++ errName e
       | .ok w =>
